@@ -113,6 +113,8 @@ def run_case(ctx, case, rec, d):
         from astropy import units as u
         theta_seen = (np.array(theta) * u.arcsec).to(u.Unit(case.get('tunit', 'arcsec'))).to(u.arcsec).value      # after the round trip through the given unit
         req = min(theta_seen) * ((dmin * u.kpc).to(u.Unit(case.get('dunit', 'kpc'))).to(u.pc).value)
+        dk = (dmin * u.kpc).to(u.Unit(case.get('dunit', 'kpc'))).to(u.kpc).value
+        req = min(req, min(theta_seen) * dk * 1000.0, (min(theta_seen) * dk) * 1000.0, min(theta_seen) * (dk * 1000.0))     # any natural way of forming arcsec x pc
         if case['range'] == 'onsmallest' and 'too small' in str(e) and req < ap[0] and abs(req - ap[0]) <= 4 * np.spacing(ap[0]):
             rec.notes['conformant-refusal-within-4ulp-of-smallest-aperture'] += 1
             rec.cls('request-on-smallest-aperture')
